@@ -940,6 +940,68 @@ theorem orig_nnxmeta_noop_misaligned :
 example : nnxMetaRemoveAxis (-1) (some (some "L")) (some [some "in", some "out", some "L"])
     = .ok (some [some "in", some "out"]) := by decide
 
+/-! ## StateAxes routing: every int-axis group is updated with its own axis (finding F39) -/
+
+/-- what each filter's state should become: an int-axis filter's state is updated with that axis,
+broadcast and carry states are untouched -/
+def routed {σ : Type} (f : Int → σ → σ) (layout : List (AxisSpec × σ)) : List σ :=
+  layout.map (fun p => match p.1 with | .ax k => f k p.2 | _ => p.2)
+
+/-- **vmap / pmap**: with one state per filter, every filter order (broadcast first, int first,
+several int groups) gives each state exactly its own filter's axis. -/
+theorem state_axes_vmap_routing {σ : Type} (f : Int → σ → σ) (layout : List (AxisSpec × σ)) :
+    updateStatesVmap f (layout.map Prod.fst) (layout.map Prod.snd) = routed f layout := by
+  induction layout with
+  | nil => rfl
+  | cons p ps ih =>
+    simp only [updateStatesVmap, routed, List.map_cons, List.zipWith_cons_cons] at ih ⊢
+    exact congrArg _ ih
+
+/-- **scan** (repaired): `NodeStates` holds only the vectorized states, and each of them is updated
+with the axis of its *own* filter, whatever broadcast / carry filters are listed before, between or
+after the int filters. -/
+theorem state_axes_scan_routing {σ : Type} (f : Int → σ → σ) (layout : List (AxisSpec × σ)) :
+    updateStatesScan f (layout.map Prod.fst) (vectorizedStates layout)
+      = vectorizedStates (layout.map (fun p => (p.1, match p.1 with | .ax k => f k p.2 | _ => p.2))) := by
+  have key : ∀ (layout : List (AxisSpec × σ)),
+      List.zipWith (fun k s => f k s) ((layout.map Prod.fst).filterMap AxisSpec.int?) (vectorizedStates layout)
+        = vectorizedStates (layout.map (fun p => (p.1, match p.1 with | .ax k => f k p.2 | _ => p.2))) ∧
+      ((layout.map Prod.fst).filterMap AxisSpec.int?).length = (vectorizedStates layout).length := by
+    intro layout
+    induction layout with
+    | nil => exact ⟨rfl, rfl⟩
+    | cons p ps ih =>
+      obtain ⟨a, s⟩ := p
+      cases a with
+      | bcast =>
+        simp only [vectorizedStates, AxisSpec.int?, List.map_cons, List.filterMap_cons] at ih ⊢
+        exact ih
+      | carry =>
+        simp only [vectorizedStates, AxisSpec.int?, List.map_cons, List.filterMap_cons] at ih ⊢
+        exact ih
+      | ax k =>
+        simp only [vectorizedStates, AxisSpec.int?, List.map_cons, List.filterMap_cons,
+          List.zipWith_cons_cons, List.length_cons] at ih ⊢
+        exact ⟨by rw [ih.1], by rw [ih.2]⟩
+  obtain ⟨h1, h2⟩ := key layout
+  unfold updateStatesScan
+  simp only
+  rw [h1, h2, List.drop_length, List.append_nil]
+
+/-- the shipped pairing: with a broadcast filter listed before the int filter the vectorized state
+is paired with the broadcast entry and never updated (inside `nnx.scan` the Param kept `'layers'`) -/
+theorem orig_state_axes_scan_misroutes :
+    updateStatesScanOrig (fun k (s : Names) => addAxis k (some "layers") s)
+        [.bcast, .ax 1] (vectorizedStates [(.bcast, [some "cn"]), (.ax 1, [some "in", some "out"])])
+      = [[some "in", some "out"]] ∧
+    updateStatesScan (fun k (s : Names) => addAxis k (some "layers") s)
+        [.bcast, .ax 1] (vectorizedStates [(.bcast, [some "cn"]), (.ax 1, [some "in", some "out"])])
+      = [[some "in", some "layers", some "out"]] := by decide
+
+example : updateStatesScan (fun k (s : Names) => addAxis k (some "L") s) [.carry, .ax 0, .bcast, .ax (-1)]
+    (vectorizedStates [(.carry, [some "h"]), (.ax 0, [some "a"]), (.bcast, [some "c"]), (.ax (-1), [some "b"])])
+    = [[some "L", some "a"], [some "b", some "L"]] := by decide
+
 /-! ## logical axis rules → mesh axes -/
 
 private theorem stepRule_length (names : Names) (res : List Slot) (r : Rule) :
